@@ -1,1 +1,7 @@
 import TaskModel.Resolve.Glob
+import TaskModel.Finger.AList
+import TaskModel.Finger.Globs
+import TaskModel.Finger.GlobsLemmas
+import TaskModel.Finger.Machine
+import TaskModel.Finger.MachineLemmas
+import TaskModel.Finger.Facts
